@@ -1,11 +1,9 @@
 (* PV.C02.CondPrint — executable model of how NMTranPrinter prints boolean conditions
-   (code_record.py: _do_infix for And/Or/relations, _print_Not) and of what the printed text
+   (code_record.py: _print_And, _print_Or, _print_Not; _do_infix for relations) and of what the printed text
    means to a Fortran reader.  No proofs here.
 
    sympy And / Or are n-ary (flattened, at least two arguments): [SAnd a b more].
-   _do_infix prints  print(args[0]) + op + print(args[1]) : further arguments are not printed and
-   no parentheses are added.  _print_Not prints  .NOT. (arg).  Relations are atomic tokens
-   (arithmetic binds tighter than every logical operator). *)
+   Relations are atomic tokens (arithmetic binds tighter than every logical operator). *)
 From Coq Require Import QArith List Bool PArith Arith.
 From PV Require Import Base.Expr.
 Import ListNotations.
@@ -45,13 +43,29 @@ Inductive ctok :=
 | TBad                    (* 'True' / 'False': not NM-TRAN *)
 | TAnd | TOr | TNot | TLp | TRp.
 
+Definition is_or (c : scond) : bool := match c with SOr _ _ _ => true | _ => false end.
+
+(* NMTranPrinter (after fix 5cd6b91): _print_And / _print_Or join ALL arguments with the operator; an
+   argument of an And that is itself an Or is put in parentheses.  _print_Not prints .NOT. (arg). *)
 Fixpoint print_cond (c : scond) : list ctok :=
   match c with
   | SRel o a b => [TRel o a b]
   | STrue | SFalse => [TBad]
-  | SAnd a b _ => print_cond a ++ TAnd :: print_cond b
-  | SOr a b _ => print_cond a ++ TOr :: print_cond b
+  | SAnd a b more =>
+      (if is_or a then TLp :: print_cond a ++ [TRp] else print_cond a) ++
+      TAnd :: (if is_or b then TLp :: print_cond b ++ [TRp] else print_cond b) ++ print_and_more more
+  | SOr a b more => print_cond a ++ TOr :: print_cond b ++ print_or_more more
   | SNot a => TNot :: TLp :: print_cond a ++ [TRp]
+  end
+with print_and_more (l : sclist) : list ctok :=
+  match l with
+  | SNil => []
+  | SCons c tl => TAnd :: (if is_or c then TLp :: print_cond c ++ [TRp] else print_cond c) ++ print_and_more tl
+  end
+with print_or_more (l : sclist) : list ctok :=
+  match l with
+  | SNil => []
+  | SCons c tl => TOr :: print_cond c ++ print_or_more tl
   end.
 
 (* Reference reader of Fortran logical expressions: .NOT. binds tighter than .AND., .AND. tighter
@@ -103,31 +117,32 @@ Definition parse_cond (ts : list ctok) : option cond :=
 (* the condition NM-TRAN reads in the text pharmpy prints for the sympy condition c *)
 Definition printed_cond (c : scond) : option cond := parse_cond (print_cond c).
 
-(* ---- guards --------------------------------------------------------------------------------
-   g_binary: every And / Or has exactly two arguments (a third one is not printed);
-   g_prec:   no Or directly under an And (it would need parentheses);
-   g_nobool: no literal True / False inside (not NM-TRAN syntax; sympy folds them away). *)
-Definition is_or (c : scond) : bool := match c with SOr _ _ _ => true | _ => false end.
-Definition is_nil (l : sclist) : bool := match l with SNil => true | _ => false end.
-
-Fixpoint g_binary (c : scond) : bool :=
-  match c with
-  | SAnd a b more | SOr a b more => is_nil more && g_binary a && g_binary b
-  | SNot a => g_binary a
-  | _ => true
-  end.
-Fixpoint g_prec (c : scond) : bool :=
-  match c with
-  | SAnd a b _ => negb (is_or a) && negb (is_or b) && g_prec a && g_prec b
-  | SOr a b _ => g_prec a && g_prec b
-  | SNot a => g_prec a
-  | _ => true
-  end.
+(* ---- guard ---------------------------------------------------------------------------------
+   g_nobool: no literal True / False inside (not NM-TRAN syntax; sympy folds them away).
+   (Before fix 5cd6b91 two more conjuncts were needed: every And/Or binary, no Or under an And.) *)
 Fixpoint g_nobool (c : scond) : bool :=
   match c with
   | STrue | SFalse => false
-  | SAnd a b _ | SOr a b _ => g_nobool a && g_nobool b
+  | SAnd a b more | SOr a b more => g_nobool a && g_nobool b && g_nobool_l more
   | SNot a => g_nobool a
   | SRel _ _ _ => true
+  end
+with g_nobool_l (l : sclist) : bool :=
+  match l with SNil => true | SCons c tl => g_nobool c && g_nobool_l tl end.
+Definition guard_cond (c : scond) : bool := g_nobool c.
+
+(* shape facts used only for the input distribution of the check *)
+Definition is_nil (l : sclist) : bool := match l with SNil => true | _ => false end.
+Fixpoint shape_binary (c : scond) : bool :=
+  match c with
+  | SAnd a b more | SOr a b more => is_nil more && shape_binary a && shape_binary b
+  | SNot a => shape_binary a
+  | _ => true
   end.
-Definition guard_cond (c : scond) : bool := g_binary c && g_prec c && g_nobool c.
+Fixpoint shape_no_or_under_and (c : scond) : bool :=
+  match c with
+  | SAnd a b _ => negb (is_or a) && negb (is_or b) && shape_no_or_under_and a && shape_no_or_under_and b
+  | SOr a b _ => shape_no_or_under_and a && shape_no_or_under_and b
+  | SNot a => shape_no_or_under_and a
+  | _ => true
+  end.
